@@ -28,8 +28,12 @@ PROPS = {
         "design_ref": "DESIGN.md sections 3.1 and 5",
         "test": "TestVerifC02",
         "variant": "plain",
-        "technique": "stateful model-based property testing with a recording, poisoning, never-reusing pool allocator; every live zero-copy result re-compared with its snapshot after every later operation",
-        "rule": "same generator as C01; every Next/Peek/Until/Bytes/GetBytes result is snapshotted and re-checked (content equal, backing block not freed) after every later step until its reader's Release; non-trivial = some result was held across a later operation that allocated or freed pool memory; distinct = op-kind sequence with size classes and node cap",
+        "parts": [
+            {"test": "TestVerifC02", "replay_marker": '"b":'},
+            {"test": "TestVerifC02Conc", "steps": 0, "shrinktime": "1ms", "quick": {"checks": 400, "shards": 8}, "thorough": {"checks": 6000, "shards": 16}, "replay_marker": '"conc"'},
+        ],
+        "technique": "stateful model-based property testing with a recording, poisoning, never-reusing pool allocator; every live zero-copy result re-compared with its snapshot after every later operation; plus generated Slice-reader trees executed on real goroutines (repeated, spin-barrier aligned) against the same stream/ledger oracles",
+        "rule": "same generator as C01; every Next/Peek/Until/Bytes/GetBytes result is snapshotted and re-checked (content equal, backing block not freed) after every later step until its reader's Release; non-trivial = some result was held across a later operation that allocated or freed pool memory; distinct = op-kind sequence with size classes and node cap. Second part (other goroutines): a generated tree of Slice readers (1-4 children, nested to depth 2, or a stripe of 8-120 one-node blocks each shared by two readers of two or three goroutines) is read and released on its own goroutines while the parent reads, writes, releases and closes; each case is executed 25 (thorough 120) times; non-trivial there = at least three goroutines.",
         "assumptions": E1_ASSUME,
         "steps": 40,
         "quick": {"checks": 12000, "shards": 16},
@@ -55,8 +59,12 @@ PROPS = {
         "design_ref": "DESIGN.md sections 3.1 and 5",
         "test": "TestVerifC03",
         "variant": "plain",
-        "technique": "stateful model-based property testing against a pool ledger (double/interior/foreign free), node-chain aliasing walk and caller-memory snapshots",
-        "rule": "same generator as C01; oracle = ledger of pool Malloc/Free (no double, interior or foreign free that the real pool would accept), no linked node or cache referencing a freed block, no node struct in two chains, caller-owned and private memory unchanged; non-trivial = the case freed at least one pool block AND used a caller-memory node, a WriteDirect split or a Slice child; distinct = op-kind sequence with size classes and node cap",
+        "parts": [
+            {"test": "TestVerifC03", "replay_marker": '"b":'},
+            {"test": "TestVerifC03Conc", "steps": 0, "shrinktime": "1ms", "quick": {"checks": 400, "shards": 8}, "thorough": {"checks": 6000, "shards": 16}, "replay_marker": '"conc"'},
+        ],
+        "technique": "stateful model-based property testing against a pool ledger (double/interior/foreign free), node-chain aliasing walk and caller-memory snapshots; plus generated Slice-reader trees executed on real goroutines (repeated, spin-barrier aligned) against the same ledger",
+        "rule": "same generator as C01; oracle = ledger of pool Malloc/Free (no double, interior or foreign free that the real pool would accept), no linked node or cache referencing a freed block, no node struct in two chains, caller-owned and private memory unchanged; non-trivial = the case freed at least one pool block AND used a caller-memory node, a WriteDirect split or a Slice child; distinct = op-kind sequence with size classes and node cap. Second part (other goroutines): a generated tree of Slice readers (1-4 children, nested to depth 2, or a stripe of 8-120 one-node blocks each shared by two readers of two or three goroutines) is read and released on its own goroutines while the parent reads, writes, releases and closes; each case is executed 25 (thorough 120) times; non-trivial there = at least three goroutines.",
         "assumptions": E1_ASSUME,
         "steps": 40,
         "quick": {"checks": 12000, "shards": 16},
@@ -161,8 +169,8 @@ PROPS.update({
     "C18": _e3("TestVerifC18", "Generated sequences of SetNumLoops/SetLoadBalance applied between phases on private managers, each phase with 1-32 goroutines calling Pick concurrently (the first phase races the lazy initialisation); pool size, membership, liveness of every poller (an operator registered on it must receive an event), descriptor census after shrink and Close, round-robin spread.",
                "scenario = initial size 1-5 x 1-4 phases of (loops 1-6, RoundRobin/Random, 1/2/8/32 goroutines x 1-40 Picks); non-trivial = at least one phase with concurrent Picks; distinct = scenario",
                quick=12, thorough=300),
-    "C19": dict(_e3("TestVerifC19", "The E3 workloads (bulk streams both ways, Shutdown during traffic, concurrent dials incl. failing ones, pool reconfiguration, descriptor lifecycles) plus a close race (one reader, one writer, 1-4 closers on both ends) and a writer stuck in a partial flush closed from other goroutines (with and without a slow user close callback) and (second binary, package mux) a ShardQueue on a real connection with 2-8 concurrent adders, nil getters, Close during the Adds and a peer that goes away, run under the Go race detector inside the documented concurrency contract; every race report is a violation.",
-               "workload drawn from {bulk, shutdown, dial, pool, closerace, blockedwrite, dialhold, fdsteps, shardqueue} with generated parameters; every case is non-trivial (several goroutines of different roles - poller, handler task, user reader/writer, closer - touch the same connection or pool); distinct = workload kind + parameters",
+    "C19": dict(_e3("TestVerifC19", "The E3 workloads (bulk streams both ways, Shutdown during traffic, concurrent dials incl. failing ones, pool reconfiguration, descriptor lifecycles) plus a close race (one reader, one writer, 1-4 closers on both ends) and a writer stuck in a partial flush closed from other goroutines (with and without a slow user close callback), Slice readers of one buffer read and released on several goroutines while the parent reads, writes, releases and closes, and (second binary, package mux) a ShardQueue on a real connection with 2-8 concurrent adders, nil getters, Close during the Adds and a peer that goes away, run under the Go race detector inside the documented concurrency contract; every race report is a violation.",
+               "workload drawn from {bulk, shutdown, dial, pool, closerace, blockedwrite, dialhold, fdsteps, slices, shardqueue} with generated parameters; every case is non-trivial (several goroutines of different roles - poller, handler task, user reader/writer, closer - touch the same connection or pool); distinct = workload kind + parameters",
                quick=20, thorough=300, variant="race", crash_is_violation=True, timeout_s=3000,
                technique="generated concurrent workloads under the Go race detector (oracle: zero race reports outside the harness)",
                env={"GORACE": "halt_on_error=0"}),
